@@ -8,6 +8,25 @@ from hypothesis import strategies as st, assume
 from . import exact as X
 from .gen import direction, lattice_point, SCALES, T_TABLE
 
+def moderate(v, target=2):
+    """positive dyadic multiple of the integer vector v whose largest component is about `target`
+    (face normals of lattice bodies can have components in the thousands; used as an offset they would
+    throw constructed operands far outside the lattice domain)"""
+    m = max(abs(F(c)) for c in v)
+    if m == 0:
+        return tuple(F(c) for c in v)
+    s = F(1)
+    while m * s > target:
+        s /= 2
+    return tuple(F(c) * s for c in v)
+
+
+def max_coord(o):
+    """largest absolute coordinate of a bounded descriptor"""
+    pts = o[1] if o[0] in ("G", "K") else [p for p in o[1:] if isinstance(p, tuple)]
+    return max(abs(c) for p in pts for c in p)
+
+
 # ---------------------------------------------------------------- 2-D convex lattice shapes
 SHAPES2 = {
     3: [[(0, 0), (2, 0), (0, 2)], [(0, 0), (3, 1), (1, 2)], [(-1, -1), (2, 0), (0, 3)], [(0, 0), (1, 0), (0, 1)]],
@@ -295,7 +314,7 @@ def polygon_in_plane_of(draw, G, recipe):
         i = draw(st.integers(0, m - 1))
         a, b = pts[i], pts[(i + 1) % m]
         out = X.cross(X.sub(b, a), n)  # outward in-plane normal of edge (a,b)
-        outp = tuple(F(c) for c in X.primitive(out))
+        outp = moderate(X.primitive(out))
         e = X.sub(b, a)
         k = draw(st.sampled_from((F(1), F(1, 2), F(2))))
         s = draw(st.sampled_from((F(0), F(1, 2), F(1), F(-1, 2))))
@@ -404,7 +423,7 @@ def polygon_vs_polyhedron(draw, K, recipe):
         out = (0, 0, 0)
         for f in adj:
             out = X.add(out, f[0])
-        out = tuple(F(c) for c in X.primitive(out))
+        out = moderate(X.primitive(out))
         w1 = draw(direction(2))
         w2 = draw(direction(2))
         q = [p, X.add(X.add(p, out), X.mul(F(1, 2), w1)), X.add(X.add(p, X.mul(2, out)), X.mul(F(1, 2), w2))]
@@ -437,7 +456,7 @@ def polyhedron_vs_polyhedron(draw, K, recipe):
     if recipe in ("glue-face", "glue-face-part"):
         n, b, idx = draw(st.sampled_from(K[2]))
         f = [pts[i] for i in idx]
-        nv = tuple(F(c) for c in n)
+        nv = moderate(n)
         c = X.mul(F(1, 4), X.add(X.mul(2, f[0]), X.add(f[1], f[2])))
         apex = X.add(
             X.add(c, X.mul(draw(st.sampled_from((F(1), F(1, 2)))), nv)),
@@ -457,9 +476,9 @@ def polyhedron_vs_polyhedron(draw, K, recipe):
         out = (0, 0, 0)
         for f in adj:
             out = X.add(out, f[0])
-        out = tuple(F(c) for c in X.primitive(out))
+        out = moderate(X.primitive(out))
         w = X.cross(X.sub(q, p), out)
-        w = tuple(F(c) for c in X.primitive(w))
+        w = moderate(X.primitive(w))
         K2 = X.make_K([p, q, X.add(X.add(p, out), w), X.add(X.sub(p, w), out)])
         assume(_ok_K(K2))
         return K2
